@@ -45,10 +45,13 @@ class Sched:
         self.points = []           # (runnable tuple, chosen) at every scheduling point
         self.errors = []           # (thread, exception)
         self.deadlock = None
+        self.deadlock_pos = None
         self.aborted = False
         self.max_events = max_events
         self.last = None
         self.preemptions = 0
+        self.daemons = set()       # worker threads: the run ends when only these remain (blocked)
+        self.finished = False
 
     # ---- thread management
     def spawn(self, name, fn):
@@ -98,10 +101,19 @@ class Sched:
 
     def _pick(self):
         r = self._runnable()
+        if r and all(n in self.daemons for n in r) and all(
+                n in self.done or n in self.daemons for n in self.threads):
+            # only workers are left and they still have work: let them run
+            pass
         if not r:
             self.cur = None
-            if len(self.done) < len(self.threads):
-                self.deadlock = sorted(set(self.threads) - self.done)
+            left = set(self.threads) - self.done
+            if left and all(n in self.daemons for n in left):
+                self.finished = True          # workers blocked on an empty queue: normal end of the run
+                self.aborted = True
+            elif left and self.deadlock is None:
+                self.deadlock = sorted(left)
+                self.deadlock_pos = len(self.trace)
                 self.aborted = True
             return
         if len(self.trace) > self.max_events:
@@ -122,6 +134,8 @@ class Sched:
         n = self.me()
         if n is None:
             return
+        if self.aborted:
+            raise SchedAbort()
         with self.cv:
             self.trace.append((n, kind, obj, value))
             if blocked is not None:
@@ -161,7 +175,7 @@ class Sched:
         for t in list(self.threads.values()):
             t.join(max(0.0, deadline - time.time()))
         hung = [n for n, t in self.threads.items() if t.is_alive()]
-        if hung and not self.deadlock:
+        if hung and not self.deadlock and not self.finished:
             with self.cv:
                 self.aborted = True
                 self.cv.notify_all()
@@ -334,6 +348,9 @@ class TracingSink:
         if s is not None:
             s.point("sstop", self.tag)
 
+    def tasks_to_complete(self):
+        return []
+
 
 def make_logger(core=None):
     core = core or TCore()
@@ -390,3 +407,224 @@ def random_chooser(rng, switch_pct=35):
         return rng.choice(r)
 
     return choose
+
+
+# ----------------------------------------------------------------------------- enqueue shims (C03 / C15)
+REGISTRY = {}   # shared "cross-process" objects survive pickling by identity
+
+
+def _lookup(key):
+    return REGISTRY[key]
+
+
+class _Shared:
+    _n = [0]
+
+    def _register(self, kind):
+        _Shared._n[0] += 1
+        self.key = "%s%d" % (kind, _Shared._n[0])
+        REGISTRY[self.key] = self
+
+    def __reduce__(self):
+        return (_lookup, (self.key,))
+
+
+class FakeQueue(_Shared):
+    """multiprocessing.SimpleQueue stand-in: FIFO, atomic put, blocking get; `capacity` models the pipe"""
+
+    def __init__(self, capacity=None):
+        self.items = []
+        self.capacity = capacity
+        self._register("queue")
+
+    def put(self, item):
+        s = S()
+        if s is not None and s.me() is not None:
+            if self.capacity is not None:
+                s.point("put?", self.key, _item(item), blocked=lambda: len(self.items) >= self.capacity)
+            else:
+                s.point("put?", self.key, _item(item))
+            self.items.append(item)
+            s.log_event("put", self.key, _item(item))
+        else:
+            self.items.append(item)
+
+    def get(self):
+        s = S()
+        if s is not None and s.me() is not None:
+            s.point("get?", self.key, blocked=lambda: not self.items)
+            item = self.items.pop(0)
+            s.log_event("get", self.key, _item(item))
+            return item
+        if not self.items:
+            raise RuntimeError("unscheduled get on empty FakeQueue")
+        return self.items.pop(0)
+
+    def empty(self):
+        return not self.items
+
+    def close(self):
+        pass
+
+
+def _item(item):
+    if item is None:
+        return "sentinel"
+    if item is True:
+        return "confirm"
+    return "msg:" + str(item).strip()
+
+
+class FakeEvent(_Shared):
+    def __init__(self):
+        self.flag = False
+        self._register("event")
+
+    def set(self):
+        s = S()
+        if s is not None and s.me() is not None:
+            s.point("set?", self.key)
+            self.flag = True
+            s.log_event("set", self.key)
+        else:
+            self.flag = True
+
+    def clear(self):
+        s = S()
+        if s is not None and s.me() is not None:
+            s.point("clear?", self.key)
+            self.flag = False
+            s.log_event("clear", self.key)
+        else:
+            self.flag = False
+
+    def wait(self, timeout=None):
+        s = S()
+        if s is not None and s.me() is not None:
+            s.point("wait?", self.key, blocked=lambda: not self.flag)
+            s.log_event("waited", self.key)
+            return True
+        return self.flag
+
+    def is_set(self):
+        return self.flag
+
+
+class FakeMPLock(_Shared):
+    def __init__(self):
+        self.owner = None
+        self._register("mplock")
+
+    def acquire(self, block=True, timeout=None):
+        s = S()
+        if s is not None and s.me() is not None:
+            s.point("acq", self.key, blocked=lambda: self.owner is not None)
+            self.owner = s.me()
+            s.log_event("acquired", self.key)
+            return True
+        self.owner = "ext"
+        return True
+
+    def release(self):
+        self.owner = None
+        s = S()
+        if s is not None and s.me() is not None:
+            s.point("rel", self.key)
+
+    __enter__ = acquire
+
+    def __exit__(self, *a):
+        self.release()
+
+
+class FakeContext(BaseContext):
+    _name = "fake"
+
+    def __init__(self, capacity=None):
+        self.capacity = capacity
+
+    def SimpleQueue(self):
+        return FakeQueue(self.capacity)
+
+    def Event(self):
+        return FakeEvent()
+
+    def Lock(self):
+        return FakeMPLock()
+
+
+class SchedThread:
+    """replacement for threading.Thread inside loguru._handler: the enqueue worker becomes a scheduled
+    thread named `w<k>`"""
+
+    _n = [0]
+
+    def __init__(self, target=None, daemon=None, name=None, args=(), kwargs=None):
+        self.target, self.args, self.kwargs = target, args, kwargs or {}
+        SchedThread._n[0] += 1
+        self.sname = "w%d" % SchedThread._n[0]
+        self.name = name
+
+    def start(self):
+        s = PENDING_SCHED[0] or S()
+        if s is None:
+            raise RuntimeError("SchedThread started without a scheduler")
+        fn = lambda: self.target(*self.args, **self.kwargs)  # noqa: E731
+        s.daemons.add(self.sname)
+        if s.me() is not None:
+            s.spawn_running(self.sname, fn)
+        else:
+            s.spawn(self.sname, fn)
+        self.sched = s
+
+    def join(self, timeout=None):
+        s = S()
+        if s is not None and s.me() is not None:
+            s.point("join?", self.sname, blocked=lambda: self.sname not in s.done)
+            s.log_event("joined", self.sname)
+
+    def is_alive(self):
+        return self.sname not in self.sched.done
+
+
+PENDING_SCHED = [None]   # scheduler that adopts workers started while the program is being set up
+PIDS = {}                # scheduled thread name -> emulated pid
+_real_os = _hd.os
+
+
+class _OsShim:
+    def __getattr__(self, k):
+        return getattr(_real_os, k)
+
+    @staticmethod
+    def getpid():
+        s = S() or PENDING_SCHED[0]
+        if s is not None:
+            n = s.me()
+            if n is not None and n in PIDS:
+                return PIDS[n]
+        return 1000
+
+
+class QueueEnv(Env):
+    """Env + enqueue shims: worker threads scheduled, per-thread pid"""
+
+    def __enter__(self):
+        super().__enter__()
+        self.saved_thread = _hd.Thread
+        self.saved_os = _hd.os
+        _hd.Thread = SchedThread
+        _hd.os = _OsShim()
+        REGISTRY.clear()
+        PIDS.clear()
+        SchedThread._n[0] = 0
+        _Shared._n[0] = 0
+        return self
+
+    def __exit__(self, *a):
+        _hd.Thread = self.saved_thread
+        _hd.os = self.saved_os
+        PENDING_SCHED[0] = None
+        super().__exit__(*a)
+        REGISTRY.clear()
+        PIDS.clear()
